@@ -94,6 +94,11 @@ def _check_tmana(c, tmp):
             if not np.any(np.linalg.norm(gg - v, axis=1) <= c["diam"]):
                 thr = float(scores[tuple(v)])
                 break
+    if c["seed"] % 5 == 1:
+        # very few candidates: the threshold lies between the k-th and the (k+1)-th best score, k = 0 (nothing to extract), 1, 2, 3
+        top = np.sort(scores.ravel())[::-1]
+        kk = (c["seed"] // 5) % 4
+        thr = float(top[0]) if kk == 0 else float((top[kk - 1] + top[kk]) / 2)
     # run-time monitor of the REQUIRES of the two block contracts (contracts/c07.py: TmanaSuppression, TmanaBookkeeping): the candidate list
     # built by the function's prefix (threshold, np.where, argpartition / argsort, sorted) is observed when the suppression block starts
     import sys
@@ -114,7 +119,7 @@ def _check_tmana(c, tmp):
         m, e = call(tmana.scores_extract_particles, scores, amap, arg, 5, c["diam"], scores_threshold=thr, angles_order=c["order"], angles_numbering=base)
     finally:
         sys.settrace(None)
-    if e is None and not c["as_file"]:
+    if e is None and m is not None and not c["as_file"]:
         # the in-memory angle list is shared between the tomograms of a batch: the call must leave it as it was, and a second call
         # with the same list must give the same particles
         if not np.array_equal(arg, given):
